@@ -406,6 +406,11 @@ func ShieldProfile(seed int64, out *Recorder, nOps int) *Chain {
 				loss = -loss
 				lossCoins = sdk.Coins{sdk.Coin{Denom: Bond, Amount: sdk.NewInt(loss)}}
 			}
+			// a loss that names a second denomination besides the one shield is sold in (own random stream): nothing is ever
+			// collected for it, so nothing may be owed for it
+			if r5 := newRng(seed*149 + int64(i)); loss > 0 && r5.Intn(6) == 0 {
+				lossCoins = lossCoins.Add(sdk.NewInt64Coin("zzz", 1+int64(r5.Intn(1000))))
+			}
 			content := shieldtypes.NewShieldClaimProposal(poolID, lossCoins, purchaseID, "ev", "desc", contentProposer)
 			if rng.Intn(8) == 0 { // the proposal id inside the content is the chain's to assign
 				content.ProposalId = uint64(1 + rng.Intn(6))
